@@ -318,13 +318,35 @@ def ob_error_discipline(run, oid):
             o.check(not errs, "handle_disseminator_shred|invalid-shred-dropped", "an invalid shred is dropped (no Err constructed from the validation failure)", c.span)
 
 
+def ob_recv_flags(run, oid):
+    """the reviewed reason for `&scratch[i][..len]` in UdpNetwork::recv_batch is 'len <= buffer size because MSG_TRUNC is not requested': decide that"""
+    prog = run.program("lib")
+    o = run.ob(oid, "recvmmsg / recv are called without MSG_TRUNC (and without MSG_PEEK): the length the kernel reports for a datagram never exceeds the buffer it was received into",
+               "with MSG_TRUNC the reported length is the datagram's real length: one oversized datagram makes the receive path slice beyond its buffer and the task panics", floor=1)
+    n = 0
+    for d, b in sorted(prog.bodies.items()):
+        if b.generated or "network::udp" not in d:
+            continue
+        for c in b.calls():
+            last = c.name.rsplit("::", 1)[-1]
+            if last in ("recvmmsg", "recv", "recvfrom", "recvmsg") and c.name.startswith("libc::"):
+                n += 1
+                idx = {"recvmmsg": 3, "recv": 3, "recvfrom": 3, "recvmsg": 2}[last]
+                t = b.operand_term(c.args[idx])
+                v = K.const_eval(t)
+                o.check(v is not None and (v & 0x20) == 0 and (v & 0x2) == 0, "%s|%s|flags" % (fshort(d).split("::{closure")[0], last), "flags are a constant without MSG_TRUNC (0x20) / MSG_PEEK (0x2)", c.span, {"flags": mir.show(t)[:60]})
+    o.check(n >= 1, "udp|receive-syscalls", "%d receive system call(s) in network::udp examined" % n, "")
+
+
 def check(run):
+    ob_recv_flags(run, "O10.7")
     from . import detectors as _DL
     _DL.ob_loop_exits(run, "O10.6", ['consensus', 'repair::', 'shredder'], 'a message loop or per-element handler that can be left early stops serving')
     ob_panic_closure(run, "O10.1")
     ob_window_arith(run, "O10.1b")
     from . import C13
     C13.ob_last_slice_prune(run, "O10.1c")
+    C13.ob_content_gates(run, "O10.1j")
     from . import C14
     C14.ob_create_proof_guard(run, "O10.1d")
     C14.ob_request_identifier(run, "O10.1i")
